@@ -103,6 +103,21 @@ theorem c06_merge_order_free_results (lim : Nat) (pick : List Int → Nat) (coll
 `Ev` = one matching document as the aggregators see it (time bin, group source, field source); `events` produces
 them by the lock-step walk (`c06_walk`).  `gval` / `fval` = token value of a source / parsed field value. -/
 
+/-- **positional labels**: the aggregation labels the i-th leaf of its OR tree with `tids[i]` (`WrapWithSource`,
+`ValueBySource`).  In the model the i-th posting list - empty or not, for every window `[minLID, maxLID]` the lists
+were cut to - carries source `i`: an entry `(lid, i)` is in the merged stream exactly when `lid` is in `postings[i]`.
+Hence the token index must hand over exactly one leaf per tid, in order (`c06_x_positional_labels`); dropping the
+empty leaves shifts the labels of all later tokens (second part: same documents, token 2 answered as token 1). -/
+theorem c06_positional_labels (rev : Bool) (postings : List (List Nat)) (p : Nat × Nat)
+    (hp : ∀ l, l ∈ postings → l.Pairwise (· < ·)) :
+    (p ∈ buildStream rev postings ↔ ∃ l, postings[p.2]? = some l ∧ p.1 ∈ l) ∧
+    ((7, 2) ∈ buildStream rev [[5], [], [7]] ∧ (7, 1) ∈ buildStream rev ([[5], [], [7]].filter (· ≠ []))) := by
+  refine ⟨mem_buildStream rev postings p hp, ?_, ?_⟩
+  · exact (mem_buildStream rev _ (7, 2) (by intro l hl; simp at hl; rcases hl with rfl | rfl | rfl <;> simp)).mpr
+      ⟨[7], by simp, by simp⟩
+  · exact (mem_buildStream rev _ (7, 1) (by intro l hl; simp at hl; rcases hl with rfl | rfl <;> simp)).mpr
+      ⟨[7], by simp, by simp⟩
+
 /-- **lock-step walk** (`SourcedNodeIterator.ConsumeTokenSource` over `BuildORTreeAgg`): for result LIDs in strict
 iteration order, the successive calls return for every LID a token of the field whose posting list holds the LID,
 and "not exists" exactly when no token's posting list holds it - in both search orders. -/
@@ -435,6 +450,12 @@ theorem c06_x_aggregate :
 theorem c06_x_group_not_exists :
     groupNotExistsIncr = ["n.groupByNotExists[AggBin[uint32]{MID: n.extractMID(seq.LID(lid)), Source: groupBySource}]++"] ∧
       groupNotExistsPerBin = true := by decide
+
+/-- both token indexes hand `BuildORTreeAgg` exactly one leaf per tid, unconditionally and in order, and
+`WrapWithSource` labels a leaf with its position - the hypothesis under which `c06_positional_labels` / `c06_walk`
+speak about the code -/
+theorem c06_x_positional_labels :
+    activeLeafPerTid = true ∧ sealedLeafPerTid = true ∧ wrapWithSource = ["= NewSourcedNodeWrapper(n, i)"] := by decide
 
 /-- histogram bucket rule of `iterateEvalTree`, accumulation in `MergeQPRs`, time bins of `provideExtractTimeFunc` -/
 theorem c06_x_hist :
